@@ -142,4 +142,48 @@ def run(ctx):
         if bad:
             ctx.violate(case, "a repeated type check of one graph object does not judge the graph as it now is",
                         {"site": "_check_types", "what": "recheck", "accepted": bad["accepted"]}, observed=bad)
+    # ... and whose *edge list* changes in between: same number of edges re-assigned as a new list, one entry replaced in
+    # place, an edge appended or removed (two shape classes, so that rewiring across them is what breaks consistency)
+    for _ in range(ctx.n(120)):
+        n = rng.randrange(3, 6)
+        names = [f"n{i}" for i in range(n)]
+        sa, sb = rng.sample(SHAPES[1:], 2)
+        cls = {x: (sa if i % 2 == 0 else sb) for i, x in enumerate(names)}
+        types = {x: (cls[x], cls[x]) for x in names}
+        same = lambda: rng.choice([(a, b) for a in names for b in names if cls[a] == cls[b]])
+        cross = lambda: rng.choice([(a, b) for a in names for b in names if cls[a] != cls[b]])
+        edges = [same() for _ in range(rng.randrange(1, 5))]
+        g = {"type": "NIRGraph", "nodes": [[x, node(rng, *types[x])] for x in names], "edges": [list(e) for e in edges], "meta": None}
+        graph = impl_construct(g)
+        history = []
+        case = {"op": "recheck_rewired", "graph": g, "history": history}
+        ctx.case(case); ctx.count("recheck_rewired")
+        bad = None
+        for step in range(rng.randrange(2, 6)):
+            how = rng.choice(["none", "assign_same_length", "item", "item", "append", "remove", "assign_same_length"])
+            new = cross() if rng.random() < 0.5 else same()
+            if how == "assign_same_length" and edges:
+                edges = list(edges); edges[rng.randrange(len(edges))] = new
+                graph.edges = [tuple(e) for e in edges]
+            elif how == "item" and edges:
+                j = rng.randrange(len(edges)); edges = list(edges); edges[j] = new
+                graph.edges[j] = tuple(new)
+            elif how == "append":
+                edges = list(edges) + [new]; graph.edges.append(tuple(new))
+            elif how == "remove" and edges:
+                j = rng.randrange(len(edges)); edges = list(edges); del edges[j]; del graph.edges[j]
+            history.append([how, list(new)])
+            want = expected(names, types, edges)
+            try:
+                with quiet():
+                    got = graph._check_types() is True
+                err = None
+            except Exception as e:  # noqa
+                got, err = False, type(e).__name__
+            if want != got or (not want and err != "ValueError"):
+                bad = {"step": step, "want_accept": want, "accepted": got, "error": err, "edges_now": [list(e) for e in edges]}
+                break
+        if bad:
+            ctx.violate(case, "a repeated type check of one graph object does not judge the edge list as it now is",
+                        {"site": "_check_types", "what": "recheck-rewired", "accepted": bad["accepted"]}, observed=bad)
     ctx.compare("graphs", cases, obs, reqs)
